@@ -34,11 +34,13 @@ RECURSIVE GreedyReaches(_, _, _, _, _, _, _, _, _)
 GreedyReaches(iv, sc, pk, thr, tol, mode, done, picked, out) ==
     LET live == {i \in 1..Len(iv) : i \notin done}
         hot  == {i \in live : sc[i] > thr}
+        \* a candidate's own pick hits it, so the successor state depends on the pick value only:
+        \* branch over the distinct picks of the maximal candidates
+        nextPicks == {pk[j] : j \in {x \in hot : (\A k \in hot : sc[k] <= sc[x] + tol) /\ pk[x] \in out}}
     IN IF hot = {} THEN picked = out
-       ELSE \E i \in {j \in hot : (\A k \in hot : sc[k] <= sc[j] + tol) /\ pk[j] \in out} :
+       ELSE \E p \in nextPicks :
                GreedyReaches(iv, sc, pk, thr, tol, mode,
-                             done \cup {j \in live : Hits(mode, iv[j], pk[i])} \cup {i},
-                             picked \cup {pk[i]}, out)
+                             done \cup {j \in live : Hits(mode, iv[j], p)}, picked \cup {p}, out)
 
 \* The deterministic run with the implementation's tie rule (first maximiser), as the SEQUENCE of
 \* picks -- used to state that raising the threshold can only remove picks (prefix property).
